@@ -157,13 +157,15 @@ Section ByFood.
       - apply occurs_in_named_nil in E. rewrite E. reflexivity.
     Qed.
 
-    (** Σ over foods of the [reg -s x -g] rows = period total of [x] over the log restricted to
-        the foods the book defines.  Laws: all three; the flush oracle must be a permutation
-        (a duplicated or dropped key would change the sum). *)
+    (** Σ over foods of the [reg -s x -g] rows = period total of [x] over the log.  Since fix F26 this holds
+        for the WHOLE log: a day that logs [x] directly (as a food the book does not define) contributes to
+        both sides (before, the right-hand side was over the log restricted to the foods the book defines).
+        Laws: all three; the flush oracle must be a permutation (a duplicated or dropped key would change
+        the sum). *)
     Theorem byfood_total : forall c πf πf' πd πd' d L,
       (forall l, Permutation (πf l) l) -> (forall l, Permutation (πf' l) l) ->
       sum NM (map (row_sum NM) (byfood_rows NM c πf πd d L))
-      = match period_row NM πf' πd' d (rc_single_element c) (map (defined_only NM d) L) with
+      = match period_row NM πf' πd' d (rc_single_element c) L with
         | Some (p, n) => add NM p n
         | None => zero NM
         end.
@@ -176,39 +178,15 @@ Section ByFood.
       apply map_ext. intros ln. apply byfood_values_are_filter.
     Qed.
 
-    (** when no selected day logs [x] directly as an undefined food, this is the full period total *)
-    Lemma defined_only_named : forall d x ln,
-      (forall nv, In nv (ln_elems NM ln) -> lookup (fst nv) d = None -> fst nv <> x) ->
-      named NM x (contributions NM d (defined_only NM d ln)) = named NM x (contributions NM d ln).
-    Proof.
-      intros d x ln. unfold contributions, defined_only. cbn [ln_elems].
-      induction (ln_elems NM ln) as [|[name v] r IH]; intros H; [reflexivity|].
-      cbn [filter flat_map fst snd]. destruct (lookup name d) as [els|] eqn:E.
-      - cbn [flat_map fst snd]. rewrite !named_app, IH; [reflexivity|].
-        intros nv Hnv. apply H. right. exact Hnv.
-      - rewrite named_app, IH by (intros nv Hnv; apply H; right; exact Hnv).
-        unfold ingredients_of. rewrite E. unfold named at 2. cbn [filter fst].
-        assert (beq name x = false) as Hb.
-        { apply beq_false_iff. apply (H (name, v)); [left; reflexivity|exact E]. }
-        rewrite Hb. reflexivity.
-    Qed.
-
+    (** the former "full" variant needed the hypothesis that no selected day logs [x] directly as an
+        undefined food; since fix F26 it is [byfood_total] itself (name kept) *)
     Theorem byfood_total_full : forall c πf πf' πd πd' d L,
       (forall l, Permutation (πf l) l) -> (forall l, Permutation (πf' l) l) ->
-      (forall ln nv, In ln L -> In nv (ln_elems NM ln) -> lookup (fst nv) d = None -> fst nv <> rc_single_element c) ->
       sum NM (map (row_sum NM) (byfood_rows NM c πf πd d L))
       = match period_row NM πf' πd' d (rc_single_element c) L with
         | Some (p, n) => add NM p n
         | None => zero NM
         end.
-    Proof.
-      intros c πf πf' πd πd' d L Hπf Hπf' Hdirect.
-      rewrite (byfood_total c πf πf' πd πd' d L Hπf Hπf').
-      rewrite !(period_total_is_sum πf' _ d _ _ (order_oracle_keeps_keys πf' Hπf')). f_equal. f_equal.
-      rewrite !named_flat_map, flat_map_concat_map, map_map, <- flat_map_concat_map.
-      clear Hπf Hπf'. induction L as [|ln r IH]; [reflexivity|].
-      cbn [flat_map]. rewrite IH by (intros ln' nv Hl; apply Hdirect; right; exact Hl).
-      f_equal. apply defined_only_named. intros nv Hnv. apply (Hdirect ln nv); [left; reflexivity|exact Hnv].
-    Qed.
+    Proof. exact byfood_total. Qed.
   End Laws.
 End ByFood.
